@@ -13,6 +13,7 @@ var propRunners = map[string]func(c *Checker){
 	"C13": runC13,
 	"C15": runC15,
 	"C16": runC16,
+	"C17": runC17,
 	"C19": runC19,
 	"C20": runC20,
 }
